@@ -1157,12 +1157,21 @@ where
         Self: Send + Sync,
     {
         let self_ = RootedThread::new_root(self.borrow());
-        let level = self_.context().stack.get_frames().len();
+        let (level, stack_len) = {
+            let context = self_.context();
+            (context.stack.get_frames().len(), context.stack.len())
+        };
 
         self.call_thunk(closure).await.or_else(move |mut err| {
             let mut context = self_.context();
             let stack = StackFrame::<State>::current(&mut context.stack);
             let new_trace = reset_stack(stack, level)?;
+            // The exited frames leave their values behind, remove them so that they do not stay
+            // rooted (and the stack does not grow) for as long as the thread lives
+            let len = context.stack.len();
+            if len > stack_len {
+                context.stack.pop_many(len - stack_len);
+            }
             if let Error::Panic(_, ref mut trace) = err {
                 *trace = Some(new_trace);
             }
@@ -1178,11 +1187,19 @@ where
         Self: Send + Sync,
     {
         let self_ = RootedThread::new_root(self.borrow());
-        let level = self_.context().stack.get_frames().len();
+        let (level, stack_len) = {
+            let context = self_.context();
+            (context.stack.get_frames().len(), context.stack.len())
+        };
         self.execute_io(value).await.or_else(move |mut err| {
             let mut context = self_.context();
             let stack = StackFrame::<State>::current(&mut context.stack);
             let new_trace = reset_stack(stack, level)?;
+            // See `call_thunk_top`
+            let len = context.stack.len();
+            if len > stack_len {
+                context.stack.pop_many(len - stack_len);
+            }
             if let Error::Panic(_, ref mut trace) = err {
                 *trace = Some(new_trace);
             }
